@@ -191,6 +191,9 @@ func (c01) Gen(tier string, seed int64) []fw.Unit {
 		add("foreign-digits", []byte(fd), int64(r.Intn(4)), 0)
 		add("foreign-digits", []byte(fd), int64(r.Intn(4)), 3)
 	}
+	for _, sp := range structuredPayloads() {
+		add("structured", sp, int64(r.Intn(4)), int64(3*r.Intn(2)))
+	}
 	// mask hunting: short contents varied until all 8 masks tend to appear
 	for i := 0; i < 400; i++ {
 		add("mask-variety", randBytes(r, 1+r.Intn(14), pick(r, classes)), int64(i%4), int64(r.Intn(4)))
